@@ -25,6 +25,12 @@ type Opts struct {
 	NoB       bool     `json:"no_b"`
 	Prod      bool     `json:"prod"` // production consensus constants
 	Prefix    int      `json:"prefix"`
+	// Relay adds the C09 alphabet (relayed transactions and the blocks settling them)
+	// and the pending-set oracle.
+	Relay        bool     `json:"relay"`
+	RelayT       []string `json:"relay_templates"`
+	PendingBlock []string `json:"pending_blocks"`
+	MaxRelay     int      `json:"max_relay"`
 }
 
 // Model implements proto.Model.
@@ -50,6 +56,17 @@ func New(o Opts) *Model {
 	if o.MaxHeight == 0 {
 		o.MaxHeight = 8
 	}
+	if o.Relay {
+		if len(o.RelayT) == 0 {
+			o.RelayT = world.RelayTemplates
+		}
+		if len(o.PendingBlock) == 0 {
+			o.PendingBlock = []string{"cp", "cc", "ci"}
+		}
+		if o.MaxRelay == 0 {
+			o.MaxRelay = 3
+		}
+	}
 	return &Model{O: o}
 }
 
@@ -58,6 +75,14 @@ func (m *Model) Alphabet() []string {
 	a := []string{"d"}
 	for _, t := range m.O.Templates {
 		a = append(a, "x."+t)
+	}
+	if m.O.Relay {
+		for _, t := range m.O.RelayT {
+			a = append(a, "y."+t)
+		}
+		for _, t := range m.O.PendingBlock {
+			a = append(a, "x."+t)
+		}
 	}
 	for k := 1; k <= m.O.MaxReorg; k++ {
 		for _, p := range m.O.Patterns {
@@ -91,9 +116,17 @@ func (m *Model) Enabled(w *world.World) []string {
 			if q > 0 {
 				s = append(s, ev)
 			}
+		case 'y':
+			if q == 0 && len(w.Relayed) < m.O.MaxRelay {
+				if _, ok := w.RelayContent(ev[2:], w.Ledger()); ok {
+					s = append(s, ev)
+				}
+			}
 		case 'x':
 			if q < m.O.MaxQueue && above < m.O.MaxHeight {
 				if _, ok := w.Content(ev[2:], w.Ledger()); ok {
+					s = append(s, ev)
+				} else if _, ok := w.PendingBlockContent(ev[2:], w.Ledger()); ok {
 					s = append(s, ev)
 				}
 			}
@@ -148,6 +181,21 @@ func (m *Model) Run(hist []string) *proto.Result {
 		}
 	}
 	diffs, obs := w.CheckLedger()
+	if m.O.Relay {
+		pd := w.CheckPending()
+		other := len(diffs)
+		for _, x := range pd {
+			diffs = append(diffs, "pending: "+x)
+		}
+		sel := w.CheckSelection()
+		for _, x := range sel {
+			diffs = append(diffs, "selection: "+x)
+		}
+		if other == 0 && len(sel) == 0 {
+			r.KnownTags = w.PendingKnownTags(pd)
+		}
+		r.Info["pending_txs"] = len(w.Pend.Txs)
+	}
 	r.Viol = diffs
 	if len(diffs) > 0 {
 		r.Detail = map[string]interface{}{"handler_errors": w.HandlerErrs, "obs": obs}
